@@ -35,10 +35,11 @@ Prefixes(v) == {SubSeq(v, 1, k) : k \in 0..(Len(v) - 1)}
 \* per-kind pools for positional arguments: one or two valid tokens plus every ill-formed kind
 StrPool(i) == IF Rich THEN {K("k1"), V("s:bin"), V("s:empty"), V("s:crlf"), V("s:nul"), NULL}
               ELSE IF i = 1 THEN {K("k1"), NULL} ELSE {V("v1"), NULL}
+\* (non-numeric strings include the ones a hand-written number parser tends to let through: a lone sign, a leading blank, a hex literal)
 IntPool   == IF Rich THEN {I(0), I(1), I(0 - 1), I(7), BIG("max64"), BIG("min64"), BIG("2^31"), J("w:abc"), FL("1.5"), HUGE, NULL}
-             ELSE {I(1), I(0), I(0 - 1), J("w:abc"), FL("1.5"), HUGE, NULL}
-FloatPool == {FL("1.5"), I(1), FL("+inf"), FL("-2"), J("w:abc"), J("w:paren"), NULL}
-BoundPool == {I(0), I(1), I(0 - 1), FL("0.9"), FL("-inf"), FL("+inf"), B("1", TRUE), B("1.5", TRUE), J("w:abc"), J("w:paren"), NULL}
+             ELSE {I(1), I(0), I(0 - 1), J("w:abc"), J("w:minus"), J("w:plus"), J("w:sp5"), J("w:0x"), V("s:empty"), FL("1.5"), HUGE, NULL}
+FloatPool == {FL("1.5"), I(1), FL("+inf"), FL("-2"), J("w:abc"), J("w:paren"), J("w:minus"), J("w:plus"), V("s:empty"), NULL}
+BoundPool == {I(0), I(1), I(0 - 1), FL("0.9"), FL("-inf"), FL("+inf"), B("1", TRUE), B("1.5", TRUE), J("w:abc"), J("w:paren"), J("w:minus"), NULL}
 
 Pool(kind, i) == CASE kind = "str" -> StrPool(i) [] kind = "int" -> IntPool [] kind = "float" -> FloatPool [] kind = "bound" -> BoundPool
 
@@ -113,6 +114,15 @@ Extra(nm) ==
                             <<K("k1"), I(1), K("m1"), FL("1.5"), K("m2"), I(2)>>, <<K("k1"), W("NX"), I(1), K("m1"), I(2)>>,
                             <<K("k1"), I(1), K("m1"), I(2), K("m2"), I(1), K("m1")>>, <<K("k1"), I(1), K("m1"), J("w:abc"), K("m2")>>,
                             <<K("k1"), W("XX"), W("CH"), W("INCR"), I(1), K("m1")>>, <<K("k1"), I(1), K("m1"), I(2), NULL>>}
+  \* LIMIT with offsets and counts at the 64-bit edges (a loop bounded only by the client's number must not run for ever)
+  ELSE IF nm \in {"ZRANGEBYSCORE", "ZREVRANGEBYSCORE"} THEN
+       {<<K("k1"), I(0), I(3), W("LIMIT"), o, c>> : o \in {BIG("max64"), BIG("2^31"), I(0)}, c \in {BIG("max64"), I(1), I(0 - 1)}}
+       \cup {<<K("k1"), I(3), I(0), W("LIMIT"), BIG("max64"), I(2), W("WITHSCORES")>>}
+  ELSE IF nm = "ZRANGE" THEN
+       {<<K("k1"), I(0), I(3), W("BYSCORE"), W("LIMIT"), o, c>> : o \in {BIG("max64"), I(0)}, c \in {BIG("max64"), I(1)}}
+       \cup {<<K("k1"), BIG("min64"), BIG("max64")>>, <<K("k1"), I(0), BIG("max64"), W("REV")>>}
+  ELSE IF nm \in {"LPOP", "RPOP"} THEN {<<K("k1"), BIG("max64")>>, <<K("k1"), BIG("2^31")>>}
+  ELSE IF nm = "LRANGE" THEN {<<K("k1"), BIG("min64"), BIG("max64")>>}
   ELSE {}
 
 Vectors(nm) == LET pos == Sig[nm][1] pool == Sig[nm][2] mx == Sig[nm][3] IN
